@@ -493,77 +493,80 @@ Section Model.
 
   (* Decoder.Decode: one iteration per rune read in lexInitial/lexKeyword/lexDelimiter/lexValue, one per
      call of the bulk states.  Result: the (keyword, token) pairs handed to processKeyword, in order, and how
-     the run ends.  tok = d.token, kw = d.keyword. *)
+     the run ends.  tok = d.token, kw = d.keyword.  lex_step is one iteration, `next` the rest of the run. *)
+  Definition lex_step (next : lstate -> bytes -> bytes -> bytes -> list assignment * lend)
+             (st : lstate) (tok kw : bytes) (inp : bytes) : list assignment * lend :=
+    match st with
+    | SInit =>
+      match decode_rune inp with
+      | None => ([], EndOk)
+      | Some (ch, rest) =>
+        if is_space ch then next SInit tok kw rest
+        else if (ch =? 35) || (ch =? 59) then next SComment tok kw rest
+        else if is_letter ch then next SKeyword (tok ++ encode_rune ch) kw rest
+        else ([], EndErr ErrExpectedKeyword)
+      end
+    | SKeyword =>
+      match decode_rune inp with
+      | None => ([], EndOk)          (* io.EOF inside a keyword: Decode returns nil *)
+      | Some (ch, rest) =>
+        if is_alnum ch || (ch =? 46) then next SKeyword (tok ++ encode_rune ch) kw rest
+        else if is_space ch then next SDelim [] tok rest
+        else if ch =? 61 then next SValue [] tok rest
+        else ([], EndErr ErrBadKeywordChar)
+      end
+    | SDelim =>
+      match decode_rune inp with
+      | None => ([], EndErr ErrNoDelimEOF)
+      | Some (ch, rest) =>
+        if is_space ch then next SDelim tok kw rest
+        else if ch =? 61 then next SValue tok kw rest
+        else ([], EndErr ErrBadDelim)
+      end
+    | SValue =>
+      match decode_rune inp with
+      | None => ([(kw, tok)], EndOk)
+      | Some (ch, rest) =>
+        if negb (is_space ch) then
+          if ch =? 39 then next SSingle tok kw rest
+          else if ch =? 34 then next SDouble tok kw rest
+          else next SRaw (tok ++ encode_rune ch) kw rest
+        else if ch =? 10 then
+          let '(a, e) := next SInit [] [] rest in ((kw, tok) :: a, e)
+        else next SValue tok kw rest
+      end
+    | SSingle =>
+      let '(value, found, rest) := read_bytes 39 inp in
+      if negb found then ([], EndErr ErrUnclosedQuote)
+      else match slice_to value (Z.of_nat (length value) - 1) with
+      | None => ([], EndCrash)
+      | Some v =>
+        let '(a, e) := next SInit [] [] rest in ((kw, tok ++ v) :: a, e)
+      end
+    | SDouble =>
+      let '(value, found, rest) := read_bytes 34 inp in
+      if negb found then ([], EndErr ErrUnclosedQuote)
+      else match slice_to value (Z.of_nat (length value) - 1) with
+      | None => ([], EndCrash)
+      | Some v =>
+        let '(a, e) := next SInit [] [] rest in ((kw, unescape (tok ++ v)) :: a, e)
+      end
+    | SRaw =>
+      let '(value, found, rest) := read_bytes 10 inp in
+      let v := trim_right (strip_comment value) in
+      if negb found then ([(kw, tok ++ v)], EndOk)
+      else let '(a, e) := next SInit [] [] rest in ((kw, tok ++ v) :: a, e)
+    | SComment =>
+      match inp with
+      | [] => ([], EndOk)
+      | _ => next SInit tok kw (drop_line inp)
+      end
+    end.
+
   Fixpoint lex (fuel : nat) (st : lstate) (tok kw : bytes) (inp : bytes) : list assignment * lend :=
     match fuel with
     | O => ([], EndFuel)
-    | S fuel' =>
-      match st with
-      | SInit =>
-        match decode_rune inp with
-        | None => ([], EndOk)
-        | Some (ch, rest) =>
-          if is_space ch then lex fuel' SInit tok kw rest
-          else if (ch =? 35) || (ch =? 59) then lex fuel' SComment tok kw rest
-          else if is_letter ch then lex fuel' SKeyword (tok ++ encode_rune ch) kw rest
-          else ([], EndErr ErrExpectedKeyword)
-        end
-      | SKeyword =>
-        match decode_rune inp with
-        | None => ([], EndOk)          (* io.EOF inside a keyword: Decode returns nil *)
-        | Some (ch, rest) =>
-          if is_alnum ch || (ch =? 46) then lex fuel' SKeyword (tok ++ encode_rune ch) kw rest
-          else if is_space ch then lex fuel' SDelim [] tok rest
-          else if ch =? 61 then lex fuel' SValue [] tok rest
-          else ([], EndErr ErrBadKeywordChar)
-        end
-      | SDelim =>
-        match decode_rune inp with
-        | None => ([], EndErr ErrNoDelimEOF)
-        | Some (ch, rest) =>
-          if is_space ch then lex fuel' SDelim tok kw rest
-          else if ch =? 61 then lex fuel' SValue tok kw rest
-          else ([], EndErr ErrBadDelim)
-        end
-      | SValue =>
-        match decode_rune inp with
-        | None => ([(kw, tok)], EndOk)
-        | Some (ch, rest) =>
-          if negb (is_space ch) then
-            if ch =? 39 then lex fuel' SSingle tok kw rest
-            else if ch =? 34 then lex fuel' SDouble tok kw rest
-            else lex fuel' SRaw (tok ++ encode_rune ch) kw rest
-          else if ch =? 10 then
-            let '(a, e) := lex fuel' SInit [] [] rest in ((kw, tok) :: a, e)
-          else lex fuel' SValue tok kw rest
-        end
-      | SSingle =>
-        let '(value, found, rest) := read_bytes 39 inp in
-        if negb found then ([], EndErr ErrUnclosedQuote)
-        else match slice_to value (Z.of_nat (length value) - 1) with
-        | None => ([], EndCrash)
-        | Some v =>
-          let '(a, e) := lex fuel' SInit [] [] rest in ((kw, tok ++ v) :: a, e)
-        end
-      | SDouble =>
-        let '(value, found, rest) := read_bytes 34 inp in
-        if negb found then ([], EndErr ErrUnclosedQuote)
-        else match slice_to value (Z.of_nat (length value) - 1) with
-        | None => ([], EndCrash)
-        | Some v =>
-          let '(a, e) := lex fuel' SInit [] [] rest in ((kw, unescape (tok ++ v)) :: a, e)
-        end
-      | SRaw =>
-        let '(value, found, rest) := read_bytes 10 inp in
-        let v := trim_right (strip_comment value) in
-        if negb found then ([(kw, tok ++ v)], EndOk)
-        else let '(a, e) := lex fuel' SInit [] [] rest in ((kw, tok ++ v) :: a, e)
-      | SComment =>
-        match inp with
-        | [] => ([], EndOk)
-        | _ => lex fuel' SInit tok kw (drop_line inp)
-        end
-      end
+    | S fuel' => lex_step (lex fuel') st tok kw inp
     end.
 
   Definition lex_all (inp : bytes) : list assignment * lend := lex (S (length inp)) SInit [] [] inp.
